@@ -95,7 +95,7 @@ func runSolo(c cast, tag string, mats []material) phaseOut {
 			if strings.Contains(res, "PANIC") || strings.Contains(res, "BROKEN") {
 				out.failures = append(out.failures, fmt.Sprintf("worker %d (%s) alone, repetition %d: %s", i, ws, r, res))
 			}
-			if ws.Kind == kEnc && ws.Tamper == "none" && !strings.Contains(res, "equalsMessage=true") {
+			if ws.Kind == kEnc && ws.Tamper == "none" && !ws.failing() && !strings.Contains(res, "equalsMessage=true") {
 				out.failures = append(out.failures, fmt.Sprintf("worker %d (%s) alone, repetition %d: round trip of an untampered document failed: %s", i, ws, r, res))
 			}
 		}
@@ -280,11 +280,47 @@ func recordCase(sec *vk.Section, c cast, st castStats) {
 	if c.CronFamily != "" {
 		classes = append(classes, "cron-family.same-expression-different-zones")
 	}
+	if c.FailHeavy {
+		classes = append(classes, "cast-style.failure-heavy")
+	}
 	seen := map[string]bool{}
+	add := func(ks ...string) {
+		for _, x := range ks {
+			if !seen[x] {
+				seen[x] = true
+				classes = append(classes, x)
+			}
+		}
+	}
+	failedBefore, overBefore := false, false // in the order of the solo phase
 	for _, w := range c.Workers {
 		k := "cast-has." + w.Kind
 		if w.Kind == kEnc && w.Tamper != "none" {
 			k = "cast-has.enc.tamper." + w.Tamper
+		}
+		if w.Kind == kEnc && w.failing() {
+			k = "cast-has.enc.fail." + w.Fail
+			failedBefore = true
+			switch w.Fail {
+			case "keyname-over", "deckeyname-over", "wfk-over", "keyname-border":
+				overBefore = true
+				add("cast-has.enc.fail.header-beyond-or-at-64KiB")
+			}
+		}
+		if w.Kind == kEnc && !w.failing() && w.Tamper == "none" {
+			if failedBefore {
+				add("cast-has.enc.must-succeed-after-a-failing-pipeline(solo-order)")
+			}
+			if overBefore {
+				add("cast-has.enc.must-succeed-after-a-header-too-long-failure(solo-order)")
+			}
+		}
+		if (w.Kind == kSym || w.Kind == kSig || w.Kind == kRSA) && w.failing() {
+			k = "cast-has." + w.Kind + ".fail." + w.Fail
+		}
+		if w.Kind == kOwn {
+			k = "cast-has.own." + ownTargetClass(w.Target)
+			add("cast-has.own.scribble."+w.Scribble, "cast-has.own.target."+w.Target)
 		}
 		if w.Kind == kAead {
 			k = "EXTRA(object-level).cast-has.aead-on-shared-object"
